@@ -501,11 +501,12 @@ struct TypeRunner {
     if (!w.ok) return;
     const std::size_t len = w.bytes.size();
     std::vector<std::size_t> cuts;
-    if (len <= 96 || c.thorough) for (std::size_t k = 0; k < len; k++) cuts.push_back(k);
+    const std::size_t edge = c.thorough ? 300 : 40;      // every cut of encodings up to 2*edge+16 bytes
+    if (len <= 2 * edge + 16) for (std::size_t k = 0; k < len; k++) cuts.push_back(k);
     else {
-      for (std::size_t k = 0; k < 40; k++) cuts.push_back(k);
-      for (std::size_t k = len - 40; k < len; k++) cuts.push_back(k);
-      for (int j = 0; j < 16; j++) cuts.push_back(40 + rng.below(len - 80));
+      for (std::size_t k = 0; k < edge; k++) cuts.push_back(k);
+      for (std::size_t k = len - edge; k < len; k++) cuts.push_back(k);
+      for (std::size_t j = 0; j < (c.thorough ? 200u : 16u); j++) cuts.push_back(edge + rng.below(len - 2 * edge));
     }
     for (std::size_t k : cuts) {
       std::vector<std::uint8_t> cut(w.bytes.begin(), w.bytes.begin() + k);
@@ -535,7 +536,7 @@ struct TypeRunner {
       c.line('I', enc_result(full));
     }
     std::vector<std::size_t> caps;
-    if (size <= 200 || c.thorough) for (std::size_t k = 0; k <= size + 1; k++) caps.push_back(k);
+    if (size <= 200 || (c.thorough && size <= 3000)) for (std::size_t k = 0; k <= size + 1; k++) caps.push_back(k);
     else {
       for (std::size_t k = 0; k < 24; k++) caps.push_back(k);
       for (std::size_t k = size - 24; k <= size + 1; k++) caps.push_back(k);
@@ -577,8 +578,12 @@ struct TypeRunner {
                                                0x8a, 0xb4, 0xb5, 0xb6, 0xb7, 0xb8, 0xb9, 0xba, 0xbb, 0xbc, 0xbd, 0xbe, 0xbf, 0xc0, 0xfe, 0xff};
     const std::size_t n = e.size();
     std::vector<std::size_t> pos;
-    if (n <= 48 || c.thorough) for (std::size_t i = 0; i < n; i++) pos.push_back(i);
-    else { for (std::size_t i = 0; i < 24; i++) pos.push_back(i); for (int j = 0; j < 24; j++) pos.push_back(24 + rng.below(n - 24)); }
+    // every position of short encodings; the head and a sample of the rest of long ones (the set of
+    // mutants is held in memory: bounded by ~limit * per_pos * n bytes)
+    const std::size_t limit = c.thorough ? 160 : 48;
+    if (n <= limit) for (std::size_t i = 0; i < n; i++) pos.push_back(i);
+    else { for (std::size_t i = 0; i < limit / 2; i++) pos.push_back(i); for (std::size_t j = 0; j < limit / 2; j++) pos.push_back(limit / 2 + rng.below(n - limit / 2)); }
+    if (per_pos >= 256 && n > 64) per_pos = 24;   // all 256 values only on short encodings
     for (std::size_t i : pos) {
       std::set<int> vals;
       vals.insert((e[i] + 1) & 0xff); vals.insert((e[i] + 0xff) & 0xff);
